@@ -69,11 +69,26 @@ pub fn derive_props(input: TokenStream) -> TokenStream {
 /// ```
 ///
 /// See also [`macro@cfg_not_ssr`].
+#[cfg(not(sycamore_verif_dom))]
 #[proc_macro_attribute]
 pub fn cfg_ssr(_args: TokenStream, input: TokenStream) -> TokenStream {
     let input: proc_macro2::TokenStream = input.into();
     quote! {
         #[cfg(any(not(target_arch = "wasm32"), sycamore_force_ssr))]
+        #input
+    }
+    .into()
+}
+
+/// Verification hook (`--cfg sycamore_verif_dom`, which must also be set when compiling this
+/// proc-macro crate): the DOM back end is selected on every target, so SSR-only items are never
+/// compiled. `any()` is the always-false cfg predicate.
+#[cfg(sycamore_verif_dom)]
+#[proc_macro_attribute]
+pub fn cfg_ssr(_args: TokenStream, input: TokenStream) -> TokenStream {
+    let input: proc_macro2::TokenStream = input.into();
+    quote! {
+        #[cfg(any())]
         #input
     }
     .into()
@@ -93,11 +108,26 @@ pub fn cfg_ssr(_args: TokenStream, input: TokenStream) -> TokenStream {
 /// ```
 ///
 /// See also [`macro@cfg_ssr`].
+#[cfg(not(sycamore_verif_dom))]
 #[proc_macro_attribute]
 pub fn cfg_not_ssr(_args: TokenStream, input: TokenStream) -> TokenStream {
     let input: proc_macro2::TokenStream = input.into();
     quote! {
         #[cfg(all(target_arch = "wasm32", not(sycamore_force_ssr)))]
+        #input
+    }
+    .into()
+}
+
+/// Verification hook (`--cfg sycamore_verif_dom`, which must also be set when compiling this
+/// proc-macro crate): the DOM back end is selected on every target, so DOM-only items are always
+/// compiled. `all()` is the always-true cfg predicate.
+#[cfg(sycamore_verif_dom)]
+#[proc_macro_attribute]
+pub fn cfg_not_ssr(_args: TokenStream, input: TokenStream) -> TokenStream {
+    let input: proc_macro2::TokenStream = input.into();
+    quote! {
+        #[cfg(all())]
         #input
     }
     .into()
